@@ -31,6 +31,11 @@ type PolD struct {
 	FBKind string // Result Error Echo WrapErr
 	FBR    int64
 	FBE    *ErrD
+	// Retry: how long the policy's own OnFailure listener takes (it does not watch for the cancellation)
+	LsnDur int64
+	// how long the fallback's own OnFailure listener and the fallback function take (neither watches for the cancellation);
+	// FBDur applies to the function kinds (Echo, WrapErr)
+	FBLsnDur, FBDur int64
 	// Cache
 	Key     int64
 	CacheIf []PredD
@@ -43,8 +48,8 @@ type PolD struct {
 func (p PolD) Gallina() string {
 	switch p.K {
 	case "Retry":
-		return fmt.Sprintf("PRetry {| r_fpol := build_fpolicy %s; r_abort := build_abort %s; r_max_retries := %s; r_max_duration := %d; r_return_last := %s; r_delay := %d |}",
-			callsGallina(p.Handle, false), callsGallina(p.Abort, true), gZ(p.MaxRetries), p.MaxDuration, gBool(p.ReturnLast), p.Delay)
+		return fmt.Sprintf("PRetry {| r_fpol := build_fpolicy %s; r_abort := build_abort %s; r_max_retries := %s; r_max_duration := %d; r_return_last := %s; r_delay := %d; r_lsn_dur := %s |}",
+			callsGallina(p.Handle, false), callsGallina(p.Abort, true), gZ(p.MaxRetries), p.MaxDuration, gBool(p.ReturnLast), p.Delay, gZ(p.LsnDur))
 	case "Breaker":
 		return fmt.Sprintf("PBreaker %d%%nat", p.Inst)
 	case "Limiter":
@@ -67,7 +72,7 @@ func (p PolD) Gallina() string {
 		default:
 			k = "FBWrapErr"
 		}
-		return fmt.Sprintf("PFallback {| fb_fpol := build_fpolicy %s; fb_kind_of := %s |}", callsGallina(p.Handle, false), k)
+		return fmt.Sprintf("PFallback {| fb_fpol := build_fpolicy %s; fb_kind_of := %s; fb_lsn_dur := %s; fb_dur := %s |}", callsGallina(p.Handle, false), k, gZ(p.FBLsnDur), gZ(p.FBDur))
 	default:
 		cs := make([]string, len(p.CacheIf))
 		for i, q := range p.CacheIf {
@@ -102,6 +107,11 @@ type ReqD struct {
 	Entry    string // Get GetWithExecution Run RunWithExecution GetAsync GetWithExecutionAsync RunAsync RunWithExecutionAsync
 	NoLsn    [3]bool // executor listeners left unregistered: OnSuccess, OnFailure, OnDone
 	SameExec bool    // run on the previous request's executor (same stack and listeners), without a context of its own
+	// harness only (the model knows nothing of it, which is the point): at VisT after the start, while this execution sits in a
+	// retry delay, ANOTHER execution goes through the very same policy objects (same executor), takes no virtual time and
+	// returns VisOut.  What a policy remembers of an execution belongs to that execution alone: this one must be unaffected.
+	VisT   int64
+	VisOut OutD
 	BNoLsn   int     // breaker state-change listeners left unregistered on the history's breakers (bits: OnClose OnOpen OnHalfOpen OnStateChanged); equals InstD.BNoLsn
 }
 
